@@ -472,7 +472,199 @@ def c16(ctx):
         assumptions=TCB + ["Fold as a producer with a failing visitor is covered by the gotype checks, not here"])
 
 
+# ---------------------------------------------------------------- C18
+
+def compositions(n):
+    """All ways to write n as an ordered sum of positive integers."""
+    for mask in range(1 << (n - 1)):
+        parts, cur = [], 1
+        for i in range(n - 1):
+            if mask & (1 << i):
+                parts.append(cur)
+                cur = 1
+            else:
+                cur += 1
+        parts.append(cur)
+        yield parts
+
+
+def c18(ctx):
+    rnd = ctx.rng
+    cases = []
+    nstreams = 250 if ctx.quick else 2000
+    maxall = 7 if ctx.quick else 10
+    for fmt in ("cborl", "ubjson", "json"):
+        rows = [r["doc"] for r in GENS[fmt](ctx, "lang", quick=True) if r["class"] == "complete" and 1 <= len(r["doc"]) <= 12]
+        rnd.shuffle(rows)
+        short = [d for d in rows if len(d) <= 3]
+        streams_ = []
+        for j in range(nstreams):
+            k = 1 + j % 3
+            pool = short if (j % 2 == 0 and short) else rows
+            parts = [rnd.choice(pool) for _ in range(k)]
+            if fmt == "json":
+                d = []
+                for p in parts:
+                    sep = [rnd.choice([0x20, 0x0a])] if (not is_container_doc("json", p) or rnd.random() < 0.3) else []
+                    d += p + sep
+            else:
+                d = [b for p in parts for b in p]
+            streams_.append(d)
+        for d in streams_:
+            n = len(d)
+            cases.append(case("C18", "parse", fmt, doc=d, entry="decbytes", origin="stream"))
+            if n <= maxall:
+                plans = list(compositions(n))
+            else:
+                plans = [[1] * n, [n], [2] * n, [3] * n, [7] * n] + [[rnd.randint(1, 4) for _ in range(n)] for _ in range(12 if ctx.quick else 40)]
+            for pl in plans:
+                buf = rnd.choice([1, 2, 3, 7, 64])
+                buf = max(buf, max(pl)) if rnd.random() < 0.7 else buf
+                eofw = rnd.random() < 0.5
+                cases.append(case("C18", "parse", fmt, doc=d, entry="decreader", plan=pl, buf=buf, eofwith=eofw, origin="stream"))
+                if rnd.random() < 0.25:
+                    z = [x for y in pl for x in (0, y)]
+                    cases.append(case("C18", "parse", fmt, doc=d, entry="decreader", plan=z, buf=buf, eofwith=not eofw, origin="stream zero reads"))
+            # a stream cut inside its last value
+            if n >= 2:
+                cut = d[: n - 1 - (1 if fmt == "json" and d[-1] in (0x20, 0x0a) else 0)]
+                if cut:
+                    cases.append(case("C18", "parse", fmt, doc=cut, entry="decbytes", origin="truncated stream"))
+                    cases.append(case("C18", "parse", fmt, doc=cut, entry="decreader", plan=[rnd.randint(1, 3) for _ in range(n)], buf=rnd.choice([1, 3, 64]),
+                                      eofwith=rnd.random() < 0.5, origin="truncated stream"))
+    number(cases)
+    tf, st = core.run_harness(ctx, cases)
+    failed, nv = core.tlc_validate(ctx, "TraceCodec", tf)
+    return run.decide(
+        ctx, "TraceCodec", cases, tf, failed, nv, level_note="",
+        rule="streams of 1-3 complete top-level values built from TLC-enumerated documents (JSON scalars followed by a separator) read "
+             "through NewBytesDecoder and through NewDecoder over a scripted io.Reader: for streams up to %d bytes EVERY composition of "
+             "the length into read sizes (exhaustive), longer ones with fixed and seeded plans; buffer sizes 1/2/3/7/64, io.EOF with the "
+             "last data or after it, zero-byte reads interleaved; plus streams cut inside the last value. TraceCodec requires Next #i to "
+             "deliver exactly value i of the reference decoding, then io.EOF, and a non-EOF error for a truncated stream. Distinct = "
+             "distinct (stream, reader plan, buffer); non-trivial = at least 2 values or 4 bytes." % maxall,
+        nontrivial=lambda c: len(c["doc"]) >= 4,
+        assumptions=TCB + ["grey zone not generated: a JSON stream ending in a bare number without separator (only end of input ends the token)"])
+
+
+# ---------------------------------------------------------------- C17
+
+def pick_diverse(items, sig, n, rnd):
+    """n items with pairwise different signatures first, then random ones."""
+    rnd.shuffle(items)
+    seen, out = set(), []
+    for it in items:
+        k = sig(it)
+        if k not in seen:
+            seen.add(k)
+            out.append(it)
+        if len(out) >= n:
+            break
+    return out
+
+
+def shape_sig(shape):
+    rich = [a for a in shape if not (a["k"] == "int" and a["ty"] == "int8")]
+    return tuple((a["k"], a["ty"], a["len"] >= 0, a["bt"], a["n"]) for a in rich[:2]) + (len(shape) > 3,)
+
+
+def c17(ctx):
+    rnd = ctx.rng
+    cases = []
+    A = 12 if ctx.quick else 16
+    H = 2 if ctx.quick else 3
+    # ---- encoders
+    shapes = [s for s in gen_events(ctx, quick=True) if len(s) <= 6]
+    ext = pick_diverse([s for s in shapes if has_ext(s)], shape_sig, A // 2, rnd)
+    oth = pick_diverse([s for s in shapes if not has_ext(s)], shape_sig, A - len(ext), rnd)
+    alpha = [streams.fills(s, 1, rnd)[0] for s in ext + oth]
+    for fmt in ("json", "ubjson", "cborl"):
+        for h in range(0, H + 1):
+            for hist in itertools.product(range(len(alpha)), repeat=h):
+                for pi in range(len(alpha)):
+                    if h == H and ctx.quick and rnd.random() < 0.5:
+                        continue
+                    cases.append(case("C17", "reuse", fmt, stream=alpha[pi], opts=dict(html=True, radix=False, ignf=True),
+                                      sub=dict(component="enc", history=[alpha[i] for i in hist]), origin="enc history %s" % (hist,)))
+    # ---- parsers and decoders
+    for fmt in ("cborl", "ubjson", "json"):
+        rows = [r["doc"] for r in GENS[fmt](ctx, "lang", quick=True) if r["class"] == "complete" and 2 <= len(r["doc"]) <= 24]
+        if fmt == "json":
+            rows = [d + ([0x0a] if not is_container_doc("json", d) else []) for d in rows]
+        docs = pick_diverse(rows, lambda d: (len(d) // 3, d[0], d[1], d[-1]), A, rnd)
+        for h in range(0, H + 1):
+            for hist in itertools.product(range(len(docs)), repeat=h):
+                for pi in range(len(docs)):
+                    if h == H and ctx.quick and rnd.random() < 0.5:
+                        continue
+                    hd = [docs[i] for i in hist]
+                    for comp, mode in (("parser", "parse"), ("parser", "write"), ("dec", "bytes"), ("dec", "reader")):
+                        kw = {}
+                        if mode == "reader":
+                            kw = dict(buf=rnd.choice([1, 2, 3, 7, 64]), plan=[rnd.randint(1, 5) for _ in range(rnd.randint(0, 12))], eofwith=rnd.random() < 0.5)
+                        cases.append(case("C17", "reuse", fmt, doc=docs[pi], sub=dict(component=comp, mode=mode, history=hd),
+                                          origin="%s/%s history %s" % (comp, mode, hist), **kw))
+    number(cases)
+    tf, st = core.run_harness(ctx, cases)
+    failed, nv = core.tlc_validate(ctx, "TraceCodec", tf)
+    return run.decide(
+        ctx, "TraceCodec", cases, tf, failed, nv, level_note="",
+        rule="ALL histories of up to %d documents over an alphabet of %d shapes per component (chosen with pairwise different signatures "
+             "from the TLC generators: scalars, strings, empty/nested containers, known/unknown lengths, typed containers, every family "
+             "of extended events) followed by every probe from the same alphabet (quick: half of the longest histories, seeded), for the "
+             "3 encoders, the 3 parsers (Parse per document and Write+end) and the 3 pull decoders (byte slice and scripted reader); "
+             "TraceCodec!ReuseVerdict compares the probe on the reused instance with a fresh instance and the depth accessors after "
+             "every document with a new instance's. Distinct = distinct (component, history, probe); non-trivial = history not empty."
+             % (H, A),
+        nontrivial=lambda c: len(c["sub"]["history"]) > 0,
+        assumptions=TCB + ["iterator and unfolder reuse are decided by the gotype checks (C11-C14)"])
+
+
+# ---------------------------------------------------------------- C09
+
+def c09_codec_cases(ctx):
+    rnd = ctx.rng
+    cases = []
+    for fmt in ("cborl", "ubjson", "json"):
+        for n, r in enumerate(GENS[fmt](ctx, "lang")):
+            e = ["parse", "write", "decbytes"][n % 3]
+            cases.append(case("C09", "parse", fmt, doc=r["doc"], entry=e, origin="Gen %s" % r["class"], **sched_variants(ctx, r["doc"], e, rnd)))
+        # inputs near the language: whatever of them a parser accepts must still be well-formed
+        valid = [r["doc"] for r in GENS[fmt](ctx, "lang", quick=True) if r["class"] == "complete" and len(r["doc"]) >= 3]
+        rnd.shuffle(valid)
+        for doc, how in mutations(ctx, fmt, valid[: 300 if ctx.quick else 3000], rnd, 8):
+            if how == "subst":
+                cases.append(case("C09", "parse", fmt, doc=doc, entry="parse", origin="mutation subst"))
+    shapes = [s for s in gen_events(ctx) if has_ext(s)]
+    for shape in shapes:
+        for st in streams.fills(shape, 1, rnd)[:4]:
+            cases.append(case("C09", "extcmp", "json", stream=st, sub=dict(consumer="plain"), origin="GenEvents adapter"))
+    return cases
+
+
+def c09(ctx):
+    cases = c09_codec_cases(ctx)
+    fold = GOTYPE_C09(ctx) if GOTYPE_C09 else []
+    number(cases)
+    tf, st = core.run_harness(ctx, cases)
+    failed, nv = core.tlc_validate(ctx, "TraceCodec", tf)
+    return run.decide(
+        ctx, "TraceCodec", cases, tf, failed, nv, level_note="",
+        rule="contract monitor = SFEvents!CStep folded over every recorded event: (a) the three real parsers on every TLC-enumerated "
+             "document they accept (Parse, bytewise/seeded Write, Decoder.Next), (b) the adapters of array.go/map.go/string.go "
+             "(EnsureExtVisitor over a plain recording Visitor) on every TLC-enumerated stream with an extended event. Balanced and "
+             "nested, one key per value, announced length = elements seen, announced element type = element family. Distinct = distinct "
+             "(document|stream, entry); non-trivial = at least one container.",
+        nontrivial=lambda c: len(c["doc"]) >= 2 or len(c["stream"]) >= 1,
+        assumptions=TCB + ["Fold as a producer is monitored by the same contract machine in the gotype checks (C12), whose C09 reasons are reported there"])
+
+
+GOTYPE_C09 = None
+
 PROPS = {
+    "C09": c09,
+    "C17": c17,
+    "C18": c18,
     "C16": c16,
     "C10": c10,
     "C08": c08,
